@@ -10,7 +10,7 @@ import (
 )
 
 //verif:stub github.com/ipld/go-ipld-prime/codec/dagcbor.Encode verifDagcborEncode
-//verif:native-rewrite channels/internal/internalchannel.go return dagcbor.Encode(node, w) => return verifEncodeSeam(dagcbor.Encode)(node, w)
+//verif:native-rewrite-all channels/internal/internalchannel.go dagcbor.Encode( => verifEncodeSeam(dagcbor.Encode)(
 
 // verifEncoded is the log of nodes handed to the DAG-CBOR encoder.
 var verifEncoded []datamodel.Node
